@@ -319,6 +319,26 @@ class Runner:
             ws.vanish()
         self.log.append(('ws_' + how, s.n))
 
+    def ws_break(self, s):
+        """Transport fault: from now on every write of the server on the
+        session's established WebSocket fails (reads still work); the client
+        is gone for good."""
+        ws = s.ws if (s.ws is not None and s.mode == 'websocket') else None
+        if ws is None:
+            return False
+        ws.send_fails = True
+        s.gone = True
+        s.autopong = None
+        # it ends as a failed / closed transport, or - if the server never
+        # writes before the deadline - for silence
+        self.causes.append({'s': s.n, 'cause': 'transport failure',
+                            'c_start': self.sim.tick(), 'ws': ws,
+                            't': self.sim.now})
+        self.causes.append({'s': s.n, 'cause': 'silence',
+                            'c_start': self.sim.tick(), 't': self.sim.now})
+        self.log.append(('ws_break', s.n))
+        return True
+
     def vanish(self, s):
         """The client silently goes away (stops polling / answering)."""
         s.gone = True
